@@ -122,7 +122,14 @@ func runC18(r *kit.Run) {
 		}
 		c18Script(r, i, r.Rng("seq", i))
 	}
-	nw := int64(r.Scale(32, 1500))
+	ne := int64(r.Scale(16, 300))
+	for i := int64(0); i < ne && !r.Stopped(); i++ {
+		if !r.Mine(i) {
+			continue
+		}
+		c18EqualThenMutate(r, i, r.Rng("eqmut", i))
+	}
+	nw := int64(r.Scale(32, 200))
 	for i := int64(0); i < nw && !r.Stopped(); i++ {
 		if !r.Mine(i) {
 			continue
@@ -136,6 +143,45 @@ func runC18(r *kit.Run) {
 		}
 		c18History(r, i, r.Rng("conc", i))
 	}
+}
+
+// c18EqualThenMutate: a sequential program compares two unordered sets
+// and modifies one of them right afterwards. The comparison must be over
+// when Equal returns (found by the thorough tier: Equal returned early
+// and left a map iterator goroutine advancing over the map, which the
+// next Add/Delete turned into "fatal error: concurrent map iteration and
+// map write" — process-fatal, attributed through the .cur file).
+func c18EqualThenMutate(r *kit.Run, idx int64, rng *rand.Rand) {
+	rounds := 20000
+	procs := []int{2, 4, 16}[rng.IntN(3)]
+	r.Eval()
+	r.Current(idx, "C18 Equal (false) on unordered sets immediately followed by Add/Delete")
+	kit.WithProcs(procs, func() {
+		for i := 0; i < rounds; i++ {
+			a, b := &dt.Set[int]{}, &dt.Set[int]{}
+			n := 1 + rng.IntN(4)
+			for k := 0; k < n; k++ {
+				a.Add(k)
+				if rng.IntN(2) == 0 {
+					b.Add(k + 1)
+				} else {
+					b.Add(100 + k)
+				}
+			}
+			eq := a.Equal(b)
+			if rng.IntN(2) == 0 {
+				a.Delete(rng.IntN(n))
+			} else {
+				a.Add(50 + i%7)
+			}
+			if eq {
+				r.Violation("C18/Set.Equal/true-for-different-sets", idx, nil, "Equal reported true for sets with different members", nil)
+				return
+			}
+		}
+	})
+	r.Count("equal_then_mutate_rounds", int64(rounds))
+	r.Distinct(fmt.Sprintf("equal-then-mutate|p=%d", procs))
 }
 
 // c18Winner: G long-lived goroutines, aligned by a spinning cyclic
